@@ -11,7 +11,7 @@ import random
 
 PROPERTY = "C02"
 LEVEL = "exploration"
-RULE = ("texts = all concatenations of up to L symbols of a 28-symbol token alphabet (exhaustive; L=3 quick, 4 thorough) + "
+RULE = ("texts = all concatenations of up to L symbols of a 29-symbol token alphabet (exhaustive; L=3 quick, 4 thorough) + "
         "seeded random sentences of the documented grammar (headers of level 1-3, -R headers, resource paths, links nested "
         "to depth 3, file names, leading '/', embedded blanks) + single-character edits of accepted sentences. "
         "Evaluations = texts offered to parse; a case is non-trivial when it is accepted AND (not already canonical, or "
@@ -19,7 +19,7 @@ RULE = ("texts = all concatenations of up to L symbols of a 28-symbol token alph
 ASSUMPTIONS = ["structure comparison ignores positions only", "pyparsing as shipped"]
 SHARD_TIMEOUT = {"quick": 900, "thorough": 5400}
 
-SYMBOLS = ["a", "ab", "ns", "-", "--", "/", "~~", "~_", "~I", "~/", "~h", "~X~", "~E", "~1", "%41", "%2F", "%25",
+SYMBOLS = ["a", "ab", "ns", "-", "--", "/", "~~", "~_", "~I", "~/", "~h", "~X~", "~E", "~1", "%41", "%2F", "%25", "%0A",
            ".", "..", "a.b", "-R", "R", "x", "A", "_", "+", " ", "1"]
 
 
@@ -53,7 +53,7 @@ class Gen:
         r = self.r
         n = r.choice([0, 1, 1, 2, 3])
         atoms = ["a", "B", "9", "_", "+", ".", "x.y", "~~", "~_", "~I", "~/", "~h", "~H", "~f", "~P", "~.", "~1", "~9",
-                 "%41", "%2F", "%2f", "%25", "%7E", "%20", "%C3%A9", "R", "E", "X"]
+                 "%41", "%2F", "%2f", "%25", "%7E", "%20", "%C3%A9", "R", "E", "X", "%0A", "%09", "%0D%0A", "%00"]
         return "".join(r.choice(atoms) for _ in range(n))
 
     def param(self, depth):
